@@ -45,7 +45,11 @@ Fixpoint bytes (s:string) : str :=
 Inductive prim_mode := PrimChoice | PrimWord | PrimUnknown.     (* "a" | "b" | ...   /   (?:a|b|...)\b *)
 Inductive mods_mode := ModsSetOrder | ModsSorted | ModsUnknown. (* order of arr.ai's set export / sort.Strings *)
 Inductive dup_mode := DupPanics | DupRefused | DupUnknown.      (* a name with two values: v.(rel.Value) panics / error *)
-Record grammar := { g_prim_mode : prim_mode; g_prims : list str; g_mods : mods_mode; g_dup : dup_mode }.
+(* not about payloads, but read from the same file and carried by the same "behaviour of the current source" value:
+   what parseFieldType does with a nil *sysl.Type (the return type of a view that declares none): dereferences it
+   (a panic) / answers nil *)
+Inductive nil_mode := NilDeref | NilGuarded | NilUnknown.
+Record grammar := { g_prim_mode : prim_mode; g_prims : list str; g_mods : mods_mode; g_dup : dup_mode; g_nil : nil_mode }.
 
 (* ---------- characters ---------- *)
 Definition is_ws (c:N) : bool := (N.eqb c 9 || N.eqb c 10 || N.eqb c 12 || N.eqb c 13 || N.eqb c 32)%N.     (* \s *)
